@@ -38,6 +38,13 @@ def _run_one(prop: str, spec: dict, timeout: float) -> dict:
         env['PYTHONHASHSEED'] = str(spec.get('hashseed', 0))    # checks may vary it per shard
         env['PYTHONPATH'] = str(VERIF)
         env['PYTHONDONTWRITEBYTECODE'] = '1'
+        env.pop('PYTHONOPTIMIZE', None)
+        if spec.get('optimize'):
+            env['PYTHONOPTIMIZE'] = '1'
+        for k_ in ('TZ', 'LC_ALL', 'LANG', 'PYTHONUTF8', 'PYTHONCOERCECLOCALE', 'PYTHONIOENCODING'):
+            env.pop(k_, None)
+        env['TZ'] = 'UTC'
+        env.update(spec.get('env') or {})
         env.pop('AEIC_PATH', None)
         env['TMPDIR'] = td
         t0 = time.time()
@@ -105,6 +112,19 @@ def main(argv=None) -> int:
     for i, s in enumerate(specs):
         s.setdefault('shard', i)
         s.setdefault('tier', tier)
+        # one shard in eight runs in an interpreter with assertions stripped (python -O):
+        # behaviour the properties promise must not hang on `assert` statements
+        if not args.replay and not getattr(mod, 'NO_OPTIMIZE', False):
+            s.setdefault('optimize', i % 8 == 5)
+        # ... and two in eight run in another process environment: a system time zone west /
+        # east of UTC, the latter also with the plain C locale (ASCII default encoding for
+        # files and standard output).  Nothing the properties promise depends on these.
+        if not args.replay and not getattr(mod, 'NO_ENV_VARIATION', False):
+            if i % 8 == 3:
+                s.setdefault('env', {'TZ': 'America/New_York'})
+            elif i % 8 == 6:
+                s.setdefault('env', {'TZ': 'Asia/Tokyo', 'LC_ALL': 'C', 'LANG': 'C',
+                                     'PYTHONUTF8': '0', 'PYTHONCOERCECLOCALE': '0'})
 
     timeout = getattr(mod, 'SHARD_TIMEOUT', {}).get(tier, 900 if tier == 'quick' else 7200)
     with ThreadPoolExecutor(max_workers=max(1, args.jobs)) as ex:
@@ -149,6 +169,12 @@ def main(argv=None) -> int:
         evaluations += r['evaluations']
         classes.update(r['classes'])
         counters.update(r['counters'])
+        if r['_spec'].get('optimize'):
+            counters['shards_run_with_python_-O'] += 1
+        if r['_spec'].get('env'):
+            counters['shards_run_with_TZ_' + r['_spec']['env'].get('TZ', '?')] += 1
+            if r['_spec']['env'].get('LC_ALL') == 'C':
+                counters['shards_run_with_C_locale'] += 1
         for s in r['samples']:
             if len(samples) < 6:
                 samples.append(s)
@@ -157,6 +183,12 @@ def main(argv=None) -> int:
                 v['case'] = v.get('case') or {}
                 if isinstance(v['case'], dict):
                     v['case'].setdefault('spec', r['_spec'])
+                    if isinstance(v['case']['spec'], dict) and r['_spec'].get('optimize'):
+                        v['case']['spec']['optimize'] = True
+                        v['mechanism_note'] = 'observed in a python -O shard'
+                    if isinstance(v['case']['spec'], dict) and r['_spec'].get('env'):
+                        v['case']['spec']['env'] = r['_spec']['env']
+                        v['mechanism_note'] = f"observed with environment {r['_spec']['env']}"
                 violations.append(v)
         viol_mech.update(r.get('viol_mech', {}))
         known.update(r['known'])
